@@ -1,5 +1,6 @@
 import Martian.Format
 import Martian.FormatExp
+import Martian.FormatCall
 import Driver.Util
 
 /-! Line-protocol handler for property C09 (formatter core). -/
@@ -82,6 +83,36 @@ def decode (s : String) : Option Exp :=
   | _ => none
 end
 
+/-! ### call statements: `<hex decId> <hex id> <n>` then per binding `<hex id> <0|1>` and the
+expression words, all space separated -/
+section
+open Martian.FormatExp Martian.FormatCall
+
+def encCall (c : Call) : String :=
+  " ".intercalate (hexOfBytes c.decId :: hexOfBytes c.id :: toString c.binds.length ::
+    c.binds.flatMap fun b => hexOfBytes b.id :: (if b.split then "1" else "0") :: encExp b.exp)
+
+def decBinds : Nat → List String → Option (List Bind × List String)
+  | 0, ws => some ([], ws)
+  | n + 1, id :: sp :: ws => do
+    let id ← bytesOfHex id
+    let (e, r) ← decExp ws
+    let (bs, r') ← decBinds n r
+    pure (⟨id, sp == "1", e⟩ :: bs, r')
+  | _ + 1, _ => none
+
+def decCall (s : String) : Option Call :=
+  match s.splitOn " " with
+  | d :: i :: n :: ws => do
+    let d ← bytesOfHex d
+    let i ← bytesOfHex i
+    let n ← n.toNat?
+    match decBinds n ws with
+    | some (bs, []) => pure ⟨d, i, bs⟩
+    | _ => none
+  | _ => none
+end
+
 def handle (op : String) (args : List String) : Option String :=
   match op, args with
   | "quote", [s] => do
@@ -132,6 +163,22 @@ def handle (op : String) (args : List String) : Option String :=
     match Martian.FormatExp.lexAll b with
     | some ts => pure ("some " ++ toString ts.length)
     | none => pure "none"
+  | "fmtcall", [c] => do
+    -- CallStm.format(printer, "")
+    let c ← decCall c
+    pure (hexOfBytes (Martian.FormatCall.fmtCall c))
+  | "parsecall", [s] => do
+    -- call_stm on the source: the AST or `none`
+    let b ← bytesOfHex s
+    match Martian.FormatCall.parseCall b with
+    | some c => pure ("some " ++ encCall c)
+    | none => pure "none"
+  | "wfcall", [c] => do
+    let c ← decCall c
+    pure ("wf=" ++ boolStr (Martian.FormatCall.wfCall c))
+  | "normcall", [c] => do
+    let c ← decCall c
+    pure (encCall (Martian.FormatCall.normCall c))
   | _, _ => none
 
 end Driver.C09
